@@ -57,7 +57,10 @@ fn list_strategy() -> BoxedStrategy<ListCase> {
         2 => (sel_strategy(), sel_strategy(), sel_strategy()).prop_map(|(p1, p2, q)| Item::CancelThree(p1, p2, q)),
         1 => Just(Item::RepeatPrevious),
     ];
-    (proptest::collection::vec(item, 0..7), proptest::collection::vec((any::<u8>(), any::<bool>()), 0..3)).prop_map(|(items, replays)| ListCase { items, replays }).boxed()
+    // mostly short lists; one in six has 8..28 items (up to ~60 pairs) so that any internal batching /
+    // windowing of long lists is exercised
+    let items = prop_oneof![5 => proptest::collection::vec(item.clone(), 0..7), 1 => proptest::collection::vec(item, 8..28)];
+    (items, proptest::collection::vec((any::<u8>(), any::<bool>()), 0..3)).prop_map(|(items, replays)| ListCase { items, replays }).boxed()
 }
 
 fn sel_build<G: HasPool>(s: &Sel, neg: bool) -> (Z, Pt<G::F>) {
@@ -128,7 +131,11 @@ fn check_list(c: &ListCase, info: &mut Info) -> Result<(), String> {
     }
     let has_identity = pairs.iter().any(|(_, p, _, q)| p.is_inf() || q.is_inf());
     let has_cancel = c.items.iter().any(|i| matches!(i, Item::CancelTwo(_, _) | Item::CancelThree(_, _, _)));
-    info.class(format!("pairs={}", if n > 6 { ">6".to_string() } else { n.to_string() }));
+    info.class(format!("pairs={}", if n > 32 { ">32".to_string() } else if n > 16 { "17..32".to_string() } else if n > 6 { "7..16".to_string() } else { n.to_string() }));
+    let effective = pairs.iter().filter(|(_, p, _, q)| !p.is_inf() && !q.is_inf()).count();
+    if effective > 16 {
+        info.class("more-than-16-non-identity-pairs");
+    }
     if has_identity {
         info.class("identity-in-list");
     }
@@ -214,7 +221,7 @@ fn check_list(c: &ListCase, info: &mut Info) -> Result<(), String> {
 pub fn def() -> PropDef {
     PropDef {
         id: "C11",
-        rule: "lists of 0..~14 pairs ([a_i]g1, [b_i]g2) from points with known discrete logs (identity, small multiples, pool subgroup points, negations) built from items: single pairs, (P,Q),(-P,Q), three-term cancellations (P1,Q),(P2,Q),(-(P1+P2),Q), repeated pairs; the same prepared elements re-evaluated in rotated / reversed orders and on sub-lists. Oracle: published e(g1,g2) raised to sum a_i b_i mod r in the model; exactly 1 for cancelling lists; product of the individual pairings taken in the model; pairing_multi_product and (two pairs) pairing_product agree; empty list gives 1. Non-trivial = at least 2 pairs with an identity or a cancellation; distinct = distinct cases",
+        rule: "lists of 0..~60 pairs (one list in six is long) ([a_i]g1, [b_i]g2) from points with known discrete logs (identity, small multiples, pool subgroup points, negations) built from items: single pairs, (P,Q),(-P,Q), three-term cancellations (P1,Q),(P2,Q),(-(P1+P2),Q), repeated pairs; the same prepared elements re-evaluated in rotated / reversed orders and on sub-lists. Oracle: published e(g1,g2) raised to sum a_i b_i mod r in the model; exactly 1 for cancelling lists; product of the individual pairings taken in the model; pairing_multi_product and (two pairs) pairing_product agree; empty list gives 1. Non-trivial = at least 2 pairs with an identity or a cancellation; distinct = distinct cases",
         needs_pairing: true,
         subs: vec![Box::new(Sub { name: "pair-lists", rule: "final_exponentiation(miller_loop(list)) == published^(sum a_i b_i) == product of singles == helpers; prepared reuse", quick: 2_800, thorough: 25_000, strategy: || boxed(list_strategy()), check: check_list })],
         assumptions: {
